@@ -314,4 +314,35 @@ theorem pairs_overlap_of_ok (pick : List Nat → Nat) (s j : α) (db : Loaded α
   · show _ ≤ (esOf db l).getD q.2.2 0
     omega
 
+/-! ### a small dataset for the non-vacuity examples of the property files
+
+Hourly grid, exact arithmetic (`Rat`).  Stretch 0: six samples from epoch 0; rain 5 mm/h on the
+steps starting at 3600 and 7200; the level rises by 4 between 3600 and 7200 and is flat afterwards.
+One grid instant without data (21600).  Stretch 1: three samples from 25200; rain 6 and 7 on the
+first two steps; the level rises by 6 between 28800 and 32400. -/
+namespace Example
+
+def db : Loaded Rat where
+  step := 3600
+  grid := [(0, some 0), (3600, some 0), (7200, some 0), (10800, some 0), (14400, some 0),
+           (18000, some 0), (21600, none), (25200, some 1), (28800, some 1), (32400, some 1)]
+  rain := [(0, 3600, 0), (3600, 7200, 5), (7200, 10800, 5), (10800, 14400, 0), (14400, 18000, 0),
+           (18000, 21600, 0), (25200, 28800, 6), (28800, 32400, 7), (32400, 36000, 0)]
+  et := []
+  level := [(0, 10), (3600, 10), (7200, 14), (10800, 14), (14400, 14), (18000, 14),
+            (25200, 3), (28800, 3), (32400, 9)]
+
+/-- heavy-rain threshold (mm/h) and rise threshold (mm/h) -/
+def s : Rat := 4
+def j : Rat := 1
+
+/-- two schedules: first / last storm of the pool -/
+def pickFirst : List Nat → Nat := fun _ => 0
+def pickLast : List Nat → Nat := fun l => l.length - 1
+
+/-- the same dataset without its grid labels: not well formed, `classifyAll` refuses -/
+def dbNoLabels : Loaded Rat := { db with grid := db.grid.map (fun g => (g.1, none)) }
+
+end Example
+
 end Spowtd
